@@ -22,8 +22,8 @@ def make_jobs(tier):
         for side in sides:
             if tier == "quick" and flavour == "tok" and side == "s":
                 continue
-            for kind in ("insert", "open", "defaults"):
-                nshards = 2 if tier == "quick" else 4
+            for kind in ("insert", "open", "defaults", "integrity"):
+                nshards = (2 if tier == "quick" else 4) if kind in ("insert", "open") else 1
                 for sh in range(nshards):
                     jobs.append({"flavour": flavour, "side": side, "kind": kind, "shard": sh, "nshards": nshards})
     return jobs
@@ -128,6 +128,31 @@ def worker(ctx, job):
             V.outcome(res, "roundtrip-ok" if ok else "roundtrip-differs")
             if count % 60 == 0:
                 fsutil.wipe(cache)
+    elif kind == "integrity":
+        # a declared integrity value is part of what the writer attaches: returned unchanged (canonical order)
+        order = {"sha512": 0, "sha384": 1, "sha256": 2, "sha1": 3, "xxh3": 4}
+        for algo in ("sha256", "sha512", "sha1"):
+            for n in (0, 4, 1025):
+                data = ref.gen(n, 9)
+                own = ctx.sri(algo, data)
+                weaker = [a for a in ("sha1", "sha256", "sha512") if order[a] > order[algo]]
+                forms = [("single", own)] + [("multi-with-weaker-%s" % w, ctx.sri(w, data) + " " + own) for w in weaker]
+                for fname, declared in forms:
+                    key = "int-%s-%d-%s" % (algo, n, fname)
+                    rep, _ = wr.do_write(srv, cache, side=side, entry="open", key=key, algo=algo, n=n, tag=9, opts={"integrity": declared, "time": "3"})
+                    res["evals"] += 1
+                    count += 1
+                    res["distinct"].add(V.h(flavour, side, "integrity", algo, n, fname))
+                    case = {"flavour": flavour, "side": side, "kind": "integrity", "algo": algo, "n": n, "declared": declared}
+                    sigbase = "meta:declared-integrity-%s/%s" % (fname.split("-")[0], side)
+                    canon = " ".join(sorted(declared.split(), key=lambda h: (order[h.split("-")[0]], h)))
+                    if "ok" not in rep:
+                        V.violation(res, "%s:write-%s" % (sigbase, classify(rep)), "write with a correct declared integrity failed: %r" % rep, {"engine": "seqx", "case": case, "reply": rep})
+                        continue
+                    if rep["ok"] != canon:
+                        V.violation(res, "%s:commit-returns-other-integrity" % sigbase, "commit returned %s, declared %s" % (rep["ok"], canon), {"engine": "seqx", "case": case, "reply": rep})
+                    ok = verify(key, {"integrity": canon, "size": n, "time": 3, "metadata": None, "raw_metadata": None}, case, sigbase)
+                    V.outcome(res, "declared-integrity-ok" if ok else "declared-integrity-differs")
     else:
         # truthful defaults: nothing supplied
         entries = ["oneshot", "oneshot_algo", "create", "create_algo", "open"]
